@@ -702,6 +702,8 @@ def run(ctx):
 
 
 def replay(obj):
+    if obj.get("kind") in ("no-failing-input-found", "correspondence") or obj.get("correspondence"):
+        return vlib.replay_correspondence(obj)
     r = obj.get("replay", obj)
     print(json.dumps({k: r.get(k) for k in ("prql", "origin", "wfRq", "python", "mutation", "model")}, indent=1))
     if "prql" in r:
